@@ -407,6 +407,7 @@ func BufferWhen[T, B any](boundary Observable[B]) func(Observable[T]) Observable
 				buffer = []T{}
 
 				mu.Unlock()
+				verifPoint("buffer.flush.unlocked")
 
 				destination.NextWithContext(ctx, tmp)
 			}
@@ -489,6 +490,7 @@ func BufferWithTimeOrCount[T any](size int, duration time.Duration) func(Observa
 				buffer = []T{}
 
 				mu.Unlock()
+				verifPoint("buffer.flush.unlocked")
 
 				destination.NextWithContext(ctx, tmp)
 			}
@@ -634,6 +636,7 @@ func WindowWhen[T, B any](boundary Observable[B]) func(Observable[T]) Observable
 				}
 
 				mu.Unlock()
+				verifPoint("window.flush.unlocked")
 
 				if tmp != nil { // nil on first call of flush()
 					tmp.CompleteWithContext(ctx)
@@ -658,6 +661,7 @@ func WindowWhen[T, B any](boundary Observable[B]) func(Observable[T]) Observable
 							tmp := window
 
 							mu.Unlock()
+							verifPoint("window.next.read")
 
 							tmp.NextWithContext(ctx, value)
 						},
@@ -746,6 +750,7 @@ func SampleWhen[T, t any](tick Observable[t]) func(Observable[T]) Observable[T] 
 
 								// will be executed after mutex unlock
 								defer destination.NextWithContext(cOpy.A, cOpy.B)
+								defer verifPoint("sample.tick.unlocked")
 							}
 
 							mu.Unlock()
